@@ -28,4 +28,19 @@ CHECKS["C14"] = {
     "design_ref": "§7 C14", "technique": "Lean 4 proof (suffix lemmas per scanner, induction on input) + bounded-exhaustive differential correspondence",
     "note": COMMON_NOTE + "unicode-xid/unicode-properties class tables are parameters of the model (all theorems hold for every table; the one ASCII fact needed is checked against the real tables each run). u32 offsets: texts < 2^32 bytes.",
 }
+CHECKS["C01"] = {
+    "text": "Proof (partial, stated exactly): lexer — every scanner returns a strict suffix, tokenize terminates within |input| steps, all debug assertions and the block-comment depth guard hold, LexedStr/to_input index arithmetic is total (C14 theorems); parser — EVERY function of the grammar model preserves the parser-state invariant (Dyck event balance, sound forward-parent links, token accounting = pos <= input length, glued tokens are joint), proved for all 85 mutually recursive functions by induction on fuel; consequently on every successful parse event::process never reaches unreachable!()/out-of-bounds and preserves tokens and errors in order, the debug balance assertions of TopEntryPoint::parse hold, u32 subtractions in precede/extend_to cannot underflow, parsing stops only at end of input, and the tree builder has exactly one root and no failing unwrap. NOT proved, explored only: that no grammar-level assert!(p.at(..))/bump assertion fails and that every grammar loop terminates — the unchanged code violates both (known findings F01 hang in parameter lists, F03 delay designator, F04 TokenSet shift overflow, F05 Literal::token unwrap), found and re-confirmed on every run. The models are tied to the code per layer (lex, parse, tree) on random texts, generated lexeme sequences, generated and mutated programs, and all token-kind sequences of length <= 2.",
+    "design_ref": "§7 C01", "technique": "Lean 4 proof (invariant preserved by every API primitive and, via a generated proof script, by every grammar function; hoisting lemma for forward parents) + per-layer differential correspondence + panic oracle on the implementation",
+    "note": COMMON_NOTE + "Hang detection relies on the oq3_verif hook (2000 events without progress). Thread-stack depth and allocation are outside the model.",
+}
+CHECKS["C02"] = {
+    "text": "Proof: (1) for every raw token table and every rooted step list, whenever intersperse_trivia returns, the tree builder returns exactly one root node with an empty parent stack, no unwrap/assert of the builder fails, the leaves of the tree are exactly the emitted token steps in order and their texts concatenate to the texts of the raw tokens consumed — the whole input when is_eof holds; diagnostics are the emitted error steps in order; (2) event::process maps every event list satisfying the parser invariant to a rooted step list, totally, preserving tokens and errors in order (hoisting lemma for forward parents); (3) every grammar function preserves that invariant, so both hold after every successful parse, for both entry points (they share build_tree). Node ranges of the model tree are derived from leaf lengths; that rowan's ranges tile is checked by the oracle on the real tree for every case. Not yet proved: is_eof = true for every lexer-produced input (needs the to_input/joint-bit bridge); the oracle checks text equality on every case.",
+    "design_ref": "§7 C02", "technique": "Lean 4 proof (builder run beside the tree-stack machine; depth-machine refinement for process; invariant for the parser) + per-layer differential correspondence + oracle on the real tree",
+    "note": COMMON_NOTE + "rowan is modelled as a rose tree; escape diagnostics of validate_literal not modelled.",
+}
+CHECKS["C12"] = {
+    "text": "Proof: every lexer diagnostic's range is an existing token's range (lo <= hi <= |text|, both ends token starts, i.e. character boundaries since tokens are whole characters); every parser diagnostic emitted by intersperse_trivia sits at text_start(p) for some p <= len, which never exceeds the text length — for every token table and step list. 'No silent error node' is a call-site property of the grammar (every bump_any must know the kind or have logged an error): not proved; the oracle decides it on the implementation for every case and the one blind site of the unchanged code is known finding F10. Spans of escape-sequence and semantic diagnostics are checked by the oracle only (semantic part: see C03/C13 checks).",
+    "design_ref": "§7 C12", "technique": "Lean 4 proof (position invariant of intersperse_trivia; token-range lemmas from C14) + differential correspondence + oracle on real diagnostics",
+    "note": COMMON_NOTE + "",
+}
 NOT_YET = {}
